@@ -3,6 +3,8 @@ package main
 import (
 	"fmt"
 	"os"
+	"sync"
+	"time"
 	"go/types"
 	"unicode/utf8"
 
@@ -35,6 +37,10 @@ type WorkItem struct {
 	model  []uint64 // values of the path's inputs in creation order (flattened terms)
 }
 
+var debugMu sync.Mutex
+var debugTime = map[string]time.Duration{}
+var debugCount = map[string]int{}
+var debugUnsat = os.Getenv("VERIF_DEBUG_UNSAT") != ""
 var debugReplay = os.Getenv("VERIF_DEBUG_REPLAY") != ""
 
 type dom256 [4]uint64
@@ -63,6 +69,7 @@ type Stats struct {
 	newDecisions  int // decisions made for the first time (tree nodes)
 	forks         int // decisions where both sides were feasible
 	factPruned    int
+	pcImplied     int
 	modelHits     int
 	oblig         int // obligation queries (Fail guards, bounds)
 	obligUnsat    int
@@ -83,6 +90,7 @@ type Machine struct {
 	sizes  types.Sizes
 	st     *Store
 	solver *Solver
+	solverCF *Solver // context-free queries of the summariser (never sees a path frame)
 	opts   Options
 
 	infos      map[*ssa.Function]*fnInfo
@@ -107,6 +115,10 @@ type Machine struct {
 	inputs      []*Term  // symbolic inputs in creation order
 	itemModel   []uint64
 	dom         map[int32]*dom256
+	domDirty    map[int32]bool
+	domLit      map[int32]*Term
+	pcSingle    int
+	pcSet       map[*Term]bool
 	origin      map[*Term][]*Term
 	steps       int
 	stepBudget  int
@@ -163,6 +175,11 @@ func NewMachine(prog *ssa.Program, solverKind string, opts Options) (*Machine, e
 		return nil, err
 	}
 	m.solver = s
+	cf, err := NewSolver(solverKind, m.st, timeout)
+	if err != nil {
+		return nil, err
+	}
+	m.solverCF = cf
 	m.stepBudget = opts.stepBudget
 	return m, nil
 }
@@ -180,6 +197,7 @@ func (m *Machine) resetPath(item WorkItem) {
 	if len(m.sumCachePath) > 0 {
 		m.sumCachePath = map[sumKey]*sumEntry{}
 	}
+	m.solver.PathBegin()
 	m.prefix = item.prefix
 	m.dbgExpect = item.dbgConds
 	m.dbgTrace = m.dbgTrace[:0]
@@ -191,6 +209,10 @@ func (m *Machine) resetPath(item WorkItem) {
 	}
 	m.inputs = m.inputs[:0]
 	m.dom = map[int32]*dom256{}
+	m.domDirty = map[int32]bool{}
+	m.domLit = map[int32]*Term{}
+	m.pcSingle = 0
+	m.pcSet = map[*Term]bool{}
 	m.origin = map[*Term][]*Term{}
 	m.steps = 0
 	m.depth = 0
@@ -273,8 +295,59 @@ func (m *Machine) addPC(l *Term) {
 		m.addPC(l.b)
 		return
 	}
+	if _, single := m.singleSmallVar(l); single {
+		// fully captured by the variable's domain (see domainLits); kept only for reporting
+		m.pcSingle++
+		m.refine(l)
+		return
+	}
 	m.pc = append(m.pc, l)
-	m.refine(l)
+	m.pcSet[l] = true
+	m.solver.PathAssert(l)
+}
+
+// pcImplies: purely syntactic implication by the asserted literals: +1 if every
+// conjunct of c is an asserted literal, -1 if the negation of c (or of one of its
+// conjuncts) is an asserted literal, 0 otherwise.
+func (m *Machine) pcImplies(c *Term, depth int) int {
+	if m.pcSet[c] {
+		return 1
+	}
+	if m.pcSet[m.st.Not(c)] {
+		return -1
+	}
+	if depth > 64 {
+		return 0
+	}
+	switch c.op {
+	case OpAnd:
+		a := m.pcImplies(c.a, depth+1)
+		if a == -1 {
+			return -1
+		}
+		b := m.pcImplies(c.b, depth+1)
+		if b == -1 {
+			return -1
+		}
+		if a == 1 && b == 1 {
+			return 1
+		}
+	case OpNot:
+		return -m.pcImplies(c.a, depth+1)
+	case OpOr:
+		a := m.pcImplies(c.a, depth+1)
+		if a == 1 {
+			return 1
+		}
+		b := m.pcImplies(c.b, depth+1)
+		if b == 1 {
+			return 1
+		}
+		if a == -1 && b == -1 {
+			return -1
+		}
+	}
+	return 0
 }
 
 func (m *Machine) singleSmallVar(c *Term) (int32, bool) {
@@ -312,6 +385,7 @@ func (m *Machine) refine(l *Term) {
 		return
 	}
 	d := m.domain(v)
+	m.domDirty[v] = true
 	save := m.env[v]
 	var nd dom256
 	for i := 0; i < 256; i++ {
@@ -327,37 +401,79 @@ func (m *Machine) refine(l *Term) {
 	*d = nd
 }
 
-// factsImply: +1 if c is true for every value of its (single) variable in the
-// variable's current domain, -1 if false for every value, 0 if undetermined.
-// The domain over-approximates the projection of the path condition, so only
-// "infeasible" conclusions are drawn from it.
+// factsImply: +1 if the facts of the path (per-byte domains, intervals) show c true
+// for every value, -1 if false for every value, 0 if undetermined. Domains and
+// intervals over-approximate the projection of the path condition, so only
+// "infeasible" conclusions are drawn from the result. Sound, not complete.
 func (m *Machine) factsImply(c *Term) int {
-	v, ok := m.singleSmallVar(c)
-	if !ok {
-		return 0
-	}
-	d := m.domain(v)
-	save := m.env[v]
-	sawT, sawF := false, false
-	for i := 0; i < 256 && !(sawT && sawF); i++ {
-		if !d.has(i) {
-			continue
+	return m.factsImplyD(c, 0)
+}
+
+func (m *Machine) factsImplyD(c *Term, depth int) int {
+	if c.op == OpConst {
+		if c.k != 0 {
+			return 1
 		}
-		m.env[v] = uint64(i)
-		if m.st.Eval(c, m.env) != 0 {
-			sawT = true
-		} else {
-			sawF = true
-		}
-	}
-	m.env[v] = save
-	switch {
-	case sawT && !sawF:
-		return 1
-	case sawF && !sawT:
 		return -1
 	}
-	return 0
+	if v, ok := m.singleSmallVar(c); ok {
+		d := m.domain(v)
+		save := m.env[v]
+		sawT, sawF := false, false
+		for i := 0; i < 256 && !(sawT && sawF); i++ {
+			if !d.has(i) {
+				continue
+			}
+			m.env[v] = uint64(i)
+			if m.st.Eval(c, m.env) != 0 {
+				sawT = true
+			} else {
+				sawF = true
+			}
+		}
+		m.env[v] = save
+		switch {
+		case sawT && !sawF:
+			return 1
+		case sawF && !sawT:
+			return -1
+		}
+		return 0
+	}
+	if depth > 40 {
+		return 0
+	}
+	switch c.op {
+	case OpNot:
+		return -m.factsImplyD(c.a, depth+1)
+	case OpAnd:
+		fa := m.factsImplyD(c.a, depth+1)
+		if fa == -1 {
+			return -1
+		}
+		fb := m.factsImplyD(c.b, depth+1)
+		if fb == -1 {
+			return -1
+		}
+		if fa == 1 && fb == 1 {
+			return 1
+		}
+		return 0
+	case OpOr:
+		fa := m.factsImplyD(c.a, depth+1)
+		if fa == 1 {
+			return 1
+		}
+		fb := m.factsImplyD(c.b, depth+1)
+		if fb == 1 {
+			return 1
+		}
+		if fa == -1 && fb == -1 {
+			return -1
+		}
+		return 0
+	}
+	return m.intervalImply(c)
 }
 
 func (m *Machine) inconclusive(why string) {
@@ -369,12 +485,12 @@ func (m *Machine) inconclusive(why string) {
 
 // query asks the solver whether pc ∧ extra is satisfiable; returns the model (env) if sat.
 func (m *Machine) query(extra *Term) (Result, []uint64) {
-	lits := make([]*Term, 0, len(m.pc)+1)
-	lits = append(lits, m.pc...)
-	if extra != nil {
-		lits = append(lits, extra)
+	// bring the domain constraints of the path frame up to date (domains only shrink,
+	// so asserting the newer, stronger literal next to older ones is equivalent)
+	for _, l := range m.domainLitsDirty() {
+		m.solver.PathAssert(l)
 	}
-	res, vals := m.solver.Check(lits, true, len(m.st.vars))
+	res, vals := m.solver.PathCheck(extra, true, len(m.st.vars))
 	if res == Unknown {
 		m.inconclusive("solver: " + m.solver.lastErr)
 	}
@@ -429,7 +545,20 @@ func (m *Machine) branchAt(c *Term, oblig bool, site ssa.Instruction) bool {
 	m.stats.newDecisions++
 	mv := m.st.Eval(c, m.env) != 0 // the side the cached model takes: feasible
 	otherFeasible := 0             // 0 unknown, 1 yes, -1 no
-	if m.opts.prefilter && !oblig {
+	// a literal that is syntactically among the asserted ones needs no decision procedure
+	switch m.pcImplies(c, 0) {
+	case 1:
+		if mv {
+			otherFeasible = -1
+			m.stats.pcImplied++
+		}
+	case -1:
+		if !mv {
+			otherFeasible = -1
+			m.stats.pcImplied++
+		}
+	}
+	if otherFeasible == 0 && m.opts.prefilter && !oblig {
 		switch m.factsImply(c) {
 		case 1:
 			if !mv {
@@ -451,7 +580,19 @@ func (m *Machine) branchAt(c *Term, oblig bool, site ssa.Instruction) bool {
 		if oblig {
 			m.stats.oblig++
 		}
+		tq := time.Now()
 		res, vals := m.query(m.lit(c, !mv))
+		if debugUnsat {
+			fn := "?"
+			if site != nil {
+				fn = site.Parent().Name()
+			}
+			key := fmt.Sprintf("%s oblig=%v res=%s", fn, oblig, res)
+			debugMu.Lock()
+			debugTime[key] += time.Since(tq)
+			debugCount[key]++
+			debugMu.Unlock()
+		}
 		switch res {
 		case Sat:
 			otherFeasible = 1
@@ -460,6 +601,12 @@ func (m *Machine) branchAt(c *Term, oblig bool, site ssa.Instruction) bool {
 			otherFeasible = -1
 			if oblig {
 				m.stats.obligUnsat++
+			} else if debugUnsat {
+				fn := ""
+				if site != nil {
+					fn = site.Parent().String() + " @ " + m.prog.Fset.Position(site.Pos()).String()
+				}
+				_ = fn
 			}
 		default:
 			otherFeasible = -1
@@ -760,4 +907,100 @@ func (m *Machine) getOrigin(r *Term) ([]*Term, bool) {
 	}
 	o, ok := m.origin[r]
 	return o, ok
+}
+
+// domainLits: one literal per refined variable stating its current domain (a
+// disjunction of ranges). Together they are equivalent to the conjunction of all
+// single-variable literals of the path condition.
+func (m *Machine) domainLits() []*Term {
+	out := make([]*Term, 0, len(m.dom))
+	// deterministic order
+	ids := make([]int32, 0, len(m.dom))
+	for v := range m.dom {
+		ids = append(ids, v)
+	}
+	for i := 1; i < len(ids); i++ {
+		for j := i; j > 0 && ids[j] < ids[j-1]; j-- {
+			ids[j], ids[j-1] = ids[j-1], ids[j]
+		}
+	}
+	for _, v := range ids {
+		if m.domDirty[v] || m.domLit[v] == nil {
+			m.domLit[v] = m.domainTerm(v)
+			m.domDirty[v] = false
+		}
+		if l := m.domLit[v]; l.op != OpConst || l.k == 0 {
+			out = append(out, l)
+		}
+	}
+	return out
+}
+
+func (m *Machine) domainTerm(v int32) *Term {
+	d := m.dom[v]
+	vt := m.st.vars[v].term
+	w := vt.w
+	n := 256
+	if w == 0 {
+		n = 2
+	} else if w < 8 {
+		n = 1 << w
+	}
+	if w == 0 {
+		switch {
+		case d.has(0) && d.has(1):
+			return m.st.True
+		case d.has(1):
+			return vt
+		case d.has(0):
+			return m.st.Not(vt)
+		}
+		return m.st.False
+	}
+	res := m.st.False
+	full := true
+	i := 0
+	for i < n {
+		if !d.has(i) {
+			full = false
+			i++
+			continue
+		}
+		j := i
+		for j+1 < n && d.has(j+1) {
+			j++
+		}
+		res = m.st.Or(res, m.inRange(vt, uint64(i), uint64(j)))
+		i = j + 1
+	}
+	if full {
+		return m.st.True
+	}
+	return res
+}
+
+// domainLitsDirty returns the domain literal of every variable whose domain changed
+// since it was last asserted into the path frame.
+func (m *Machine) domainLitsDirty() []*Term {
+	var out []*Term
+	ids := make([]int32, 0, len(m.domDirty))
+	for v, dirty := range m.domDirty {
+		if dirty {
+			ids = append(ids, v)
+		}
+	}
+	for i := 1; i < len(ids); i++ {
+		for j := i; j > 0 && ids[j] < ids[j-1]; j-- {
+			ids[j], ids[j-1] = ids[j-1], ids[j]
+		}
+	}
+	for _, v := range ids {
+		l := m.domainTerm(v)
+		m.domLit[v] = l
+		m.domDirty[v] = false
+		if l.op != OpConst || l.k == 0 {
+			out = append(out, l)
+		}
+	}
+	return out
 }
